@@ -84,6 +84,9 @@ type provider struct {
 
 	// State
 	disposed int32 // atomic
+
+	// closeDone is closed when the Close call that won the disposed flag has finished
+	closeDone chan struct{}
 }
 
 // instanceKey uniquely identifies a service instance
@@ -187,7 +190,16 @@ func (p *provider) CreateScope(ctx context.Context) (Scope, error) {
 // Close disposes the provider and all its resources
 func (p *provider) Close() error {
 	if !atomic.CompareAndSwapInt32(&p.disposed, 0, 1) {
-		return nil // Already disposed
+		// Already disposed, or being disposed by another goroutine: wait, so
+		// that a returned Close always means disposed
+		if p.closeDone != nil {
+			<-p.closeDone
+		}
+		return nil
+	}
+
+	if p.closeDone != nil {
+		defer close(p.closeDone)
 	}
 
 	var errors []error
@@ -203,7 +215,7 @@ func (p *provider) Close() error {
 
 	for _, s := range scopes {
 		if s != nil {
-			if err := s.Close(); err != nil {
+			if err := s.closeFromOwner(); err != nil {
 				errors = append(errors, fmt.Errorf("scope %s: %w", s.ID(), err))
 			}
 		}
